@@ -25,6 +25,7 @@ class ZnO(Material):
     def setDefaultMassFracs(self):
         self.setMassFrac("ZN", 0.8034)
         self.setMassFrac("O16", 0.1966)
+        self.refDens = 5.61  # g/cm3, what pseudoDensity expands in 2D
 
     def density(self, Tk=None, Tc=None):
         return 5.61
